@@ -49,6 +49,8 @@ def enumerate_cases(tier, seed):
 
 MT_PARTS = 8
 MT_ALPHABET = ["Affine", "TriAffine", "AddCond", "Flip"]  # pairwise non-commuting (Affine has distinct per-coordinate scales)
+# composite members: merging must keep the ORDER inside a nested Chain and REVERSE it inside an inverted one
+MT_COMPOSITE = ["InvChain", "Chain2", "InvAffine", "InvChainCond"]
 
 
 def _mt_bijection(name, pos, seed):
@@ -63,6 +65,14 @@ def _mt_bijection(name, pos, seed):
         return B.TriangularAffine(jnp.asarray([0.1, -0.2 - t]), jnp.asarray([[1.2, 0.0], [0.7 + t, 0.8]]))
     if name == "AddCond":
         return B.AdditiveCondition(_mt_cond_fn, (2,), (2,))
+    if name == "InvChain":
+        return B.Invert(B.Chain([_mt_bijection("Affine", pos + 3, seed), _mt_bijection("TriAffine", pos + 5, seed), B.Flip((2,))]))
+    if name == "InvChainCond":
+        return B.Invert(B.Chain([_mt_bijection("TriAffine", pos + 2, seed), _mt_bijection("AddCond", pos, seed)]))
+    if name == "Chain2":
+        return B.Chain([_mt_bijection("TriAffine", pos + 4, seed), B.Chain([B.Flip((2,)), _mt_bijection("Affine", pos + 6, seed)])])
+    if name == "InvAffine":
+        return B.Invert(_mt_bijection("Affine", pos + 1, seed))
     return B.Flip((2,))
 
 
@@ -89,6 +99,8 @@ def _run_merge_transforms(case):
     words = []
     for n in (1, 2, 3, 4) if tier == "quick" else (1, 2, 3, 4, 5):
         words += list(itertools.product(MT_ALPHABET, repeat=n))
+    for n in (1, 2, 3) if tier == "quick" else (1, 2, 3, 4):  # words containing at least one composite member
+        words += [w for w in itertools.product(MT_ALPHABET[:3] + MT_COMPOSITE, repeat=n) if any(x in MT_COMPOSITE for x in w)]
     X = jnp.asarray([[0.3, -1.1], [1.7, 0.4], [-2.0, 0.05]])
     cnd = jnp.asarray([0.6, -0.9])
     key = jr.PRNGKey(seed + 5)
@@ -125,7 +137,21 @@ def _run_merge_transforms(case):
             if isinstance(m.base_dist, D.AbstractTransformed):
                 add("not-flat", f"{tag}: the merged distribution's base is still an AbstractTransformed")
             members = list(m.bijection.bijections) if isinstance(m.bijection, B.Chain) else [m.bijection]
-            if len(members) != levels or any(isinstance(b_, B.Chain) for b_ in members):
+            composite = any(x in MT_COMPOSITE for x in word)
+            # Chain(word).merge_chains() on its own: same function, no nested Chain left
+            if len(word) >= 2:
+                ch = B.Chain([_mt_bijection(name, pos, seed) for pos, name in enumerate(word)])
+                mc = ch.merge_chains()
+                cc = cnd if ch.cond_shape is not None else None
+                tr += 1
+                y0, l0 = ch.transform_and_log_det(X[0], cc)
+                y1, l1 = mc.transform_and_log_det(X[0], cc)
+                x1 = mc.inverse(y0, cc)
+                if mc.cond_shape != ch.cond_shape or not (np.allclose(y0, y1, rtol=1e-9, atol=1e-12) and np.allclose(l0, l1, rtol=1e-9, atol=1e-12) and np.allclose(x1, X[0], rtol=1e-7, atol=1e-9)):
+                    add("merge_chains", f"Chain({', '.join(word)}).merge_chains() changed the function: transform {np.asarray(y0).tolist()} -> {np.asarray(y1).tolist()}")
+                if any(isinstance(b_, B.Chain) for b_ in mc.bijections):
+                    add("merge_chains-not-flat", f"Chain({', '.join(word)}).merge_chains() left a nested Chain")
+            if (not composite and len(members) != levels) or any(isinstance(b_, B.Chain) for b_ in members):
                 add("levels", f"{tag}: {levels} nested levels were merged into a chain of {len(members)} bijections ({[type(b_).__name__ for b_ in members]})")
             lp0, lp1 = np.asarray(d.log_prob(X, c), float), np.asarray(m.log_prob(X, c), float)
             s0, s1 = np.asarray(d.sample(key, (3,), c), float), np.asarray(m.sample(key, (3,), c), float)
@@ -136,6 +162,27 @@ def _run_merge_transforms(case):
                 add("sample", f"{tag}: samples for the same key changed under merge_transforms: {s0[0].tolist()} -> {s1[0].tolist()}")
             if sample is None:
                 sample = {"nesting": tag, "log_prob": lp0.tolist(), "merged_log_prob": lp1.tolist()}
+    if case["mt"] == 0:
+        # EmbedCondition "only re-presents the inputs": the RAW condition, whatever its dtype, reaches the embedding network. A lookup
+        # table indexed by an integer condition, and integer arithmetic beyond 2**24 (not exact in float32), tell a cast apart.
+        table = jnp.asarray([[0.3, -1.2], [2.0, 0.4], [-0.7, 0.9]])
+        child = B.AdditiveCondition(_mt_cond_fn, (2,), (2,))
+        for nm, net, conds in (("lookup", lambda c: table[c], [0, np.int32(2), jnp.asarray(1, jnp.int32)]),
+                               ("int-arithmetic", lambda c: jnp.stack([(c % 7).astype(float), ((c // 3) % 5).astype(float)]), [jnp.asarray(16777217, jnp.int32), 33554435])):
+            e = B.EmbedCondition(child, net, ())
+            wrapped = [("EmbedCondition", e), ("Invert(EmbedCondition)", B.Invert(e)), ("Chain(EmbedCondition, Affine)", B.Chain([e, _mt_bijection("Affine", 0, seed)]))]
+            for c_ in conds:
+                for wn, wb in wrapped:
+                    tr += 1
+                    try:
+                        got = wb.transform(X[0], c_)
+                        inner = child.transform(X[0], net(jnp.asarray(c_))) if wn != "Invert(EmbedCondition)" else child.inverse(X[0], net(jnp.asarray(c_)))
+                        want = inner if wn != "Chain(EmbedCondition, Affine)" else _mt_bijection("Affine", 0, seed).transform(inner)
+                    except Exception as ex:
+                        add(f"embed-int-condition|{nm}|raises", f"{wn} with a {nm} embedding network and the integer condition {c_!r}: {type(ex).__name__}: {str(ex)[:120]}")
+                        continue
+                    if not np.allclose(np.asarray(got), np.asarray(want), rtol=1e-9, atol=1e-12):
+                        add(f"embed-int-condition|{nm}|value", f"{wn} with a {nm} embedding network and the integer condition {c_!r}: {np.asarray(got).tolist()} instead of child(x, net(condition)) = {np.asarray(want).tolist()}")
     for v in viols:
         n = seen[v["sig"].split("||")[1]]
         if n > 1:
